@@ -195,17 +195,31 @@ type onceFun struct {
 	fn   Fn
 	err  error
 
+	// set if the function panicked
+	panicked bool
+	panicVal interface{}
+
 	displayName string
 }
 
 // run will run the function exactly once and capture the error output. Further runs simply return
-// the same error output.
+// the same error output. If the function panicked, every run panics with the same value, so a
+// dependency that failed by panicking fails all of its dependents, not just the first one.
 func (o *onceFun) run(ctx context.Context) error {
 	o.once.Do(func() {
 		if Verbose() {
 			logger.Println("Running dependency:", displayName(o.fn.Name()))
 		}
+		defer func() {
+			if v := recover(); v != nil {
+				o.panicked = true
+				o.panicVal = v
+			}
+		}()
 		o.err = o.fn.Run(ctx)
 	})
+	if o.panicked {
+		panic(o.panicVal)
+	}
 	return o.err
 }
